@@ -17,9 +17,11 @@ TIERS = {
 }
 RULE = ("one evaluation = one seeded history (4-40 operations, swarm-selected sub-alphabet) of "
         "set(mapping)/set(**kw)/with set(...) blocks (nested)/update_defaults/refresh/get/device "
-        "requests over flat and dotted keys in '-'/'_' spellings, stepped against a dictionary "
+        "requests (also through update_defaults) over flat and dotted keys in '-'/'_' spellings (incl. "
+        "a flat key with a doubled separator, mapping and keyword form in ONE call, falsy values), "
+        "stepped against a dictionary "
         "reference model; the whole store and the defaults-derived refresh state are compared "
-        "after every operation. Two arms: private config=/defaults= containers and the "
+        "and the accumulated defaults list after every operation. Two arms: private config=/defaults= containers and the "
         "process-global store (restored after the run). distinct_nontrivial = distinct history "
         "digests with >= 3 state-changing operations.")
 SCHED_MEASURE = "distinct operation-kind 3-grams (incl. arm) visited"
